@@ -782,7 +782,11 @@ func (u *Universe) Describe() map[string]any {
 type FaultPlan struct {
 	FailDocs map[int]bool // persistent: every request for these documents errs
 	FailCall int          // transient: the k-th call (1-based) errs; 0 = none
-	Special  map[int]string
+	// Partial: the failing calls return the error TOGETHER WITH a non-nil schema (what
+	// `s := new(Schema); err := json.Unmarshal(data, s); return s, err` does on a short read):
+	// 1 = an empty schema, 2 = the whole document. The error still is the answer.
+	Partial int
+	Special map[int]string
 	// Special behaviours per call index (1-based): "nilnil", "self", "wrong",
 	// "shared" (the same *Schema value as an earlier call for that document).
 }
@@ -814,12 +818,22 @@ func (u *Universe) LoaderFor(c *Ctx, plan *FaultPlan, log *LoaderLog) jsonschema
 		log.URIs = append(log.URIs, s)
 		log.Docs = append(log.Docs, di)
 		if plan != nil {
-			if plan.FailCall == call {
-				log.Fired = append(log.Fired, "transient-error")
-				return nil, ErrInjected
-			}
-			if di >= 0 && plan.FailDocs[di] {
-				log.Fired = append(log.Fired, "persistent-error")
+			if plan.FailCall == call || (di >= 0 && plan.FailDocs[di]) {
+				kind := "persistent-error"
+				if plan.FailCall == call {
+					kind = "transient-error"
+				}
+				log.Fired = append(log.Fired, kind)
+				switch {
+				case plan.Partial == 1:
+					log.Fired = append(log.Fired, "error-with-empty-schema")
+					return &jsonschema.Schema{}, ErrInjected
+				case plan.Partial == 2 && di >= 0:
+					log.Fired = append(log.Fired, "error-with-document")
+					var sch jsonschema.Schema
+					json.Unmarshal([]byte(u.Docs[di].Text), &sch)
+					return &sch, ErrInjected
+				}
 				return nil, ErrInjected
 			}
 			switch plan.Special[call] {
